@@ -7,6 +7,7 @@
    events:  {"e":"open","c":..}   GET issued            {"e":"hdr","c":..}  headers received
             {"e":"close","c":..}  client drops stream   {"e":"eof","c":..}  body ended
             {"e":"sstart","k":..} send invoked          {"e":"send","k":..,"ok":..,"on":..} send returned
+            {"e":"probe","ok":..,"on":..} an ungated send at a quiescent point
             {"e":"reset"}         next recorded run starts                                  *)
 EXTENDS GetStream, Json
 
@@ -19,7 +20,7 @@ tvars == <<vars, l, opening>>
 Ev == TraceLog[l]
 IsEvent(e) == l <= Len(TraceLog) /\ Ev.e = e /\ l' = l + 1
 
-design == <<pc, table, regd, tgt>>
+design == <<pc, wlock, mine, table, regd, tgt>>
 
 TInit == Init /\ l = 1 /\ opening = FALSE
 
@@ -27,7 +28,7 @@ TOpen ==
   /\ IsEvent("open")
   /\ opening' = TRUE
   /\ opened' = opened + 1
-  /\ exp' = [k \in Send |-> IF spc[k] = "looked" THEN AnyS ELSE exp[k]]
+  /\ exp' = [k \in Send |-> IF spc[k] \in {"looked", "writing"} THEN AnyS ELSE exp[k]]
   /\ UNCHANGED <<design, newest, dropped, spc, res>>
 
 THdr ==
@@ -63,15 +64,22 @@ TSend ==
   /\ spc' = [spc EXCEPT ![Ev.k] = "done"]
   /\ UNCHANGED <<design, opened, newest, dropped, exp, opening>>
 
+\* an ungated send issued and completed at a quiescent point of the run
+TProbe ==
+  /\ IsEvent("probe")
+  /\ (~opening /\ OExpect # AnyS) => (Ev.ok /\ Ev.on = OExpect)
+  /\ UNCHANGED <<vars, opening>>
+
 TReset ==
   /\ IsEvent("reset")
   /\ pc' = [c \in Conn |-> "idle"] /\ table' = None /\ regd' = {}
+  /\ wlock' = [c \in Conn |-> None] /\ mine' = [c \in Conn |-> FALSE]
   /\ opened' = 0 /\ newest' = None /\ dropped' = {}
   /\ spc' = [k \in Send |-> "idle"] /\ tgt' = [k \in Send |-> None]
   /\ exp' = [k \in Send |-> AnyS] /\ res' = [k \in Send |-> NoRes]
   /\ opening' = FALSE
 
-TNext == TOpen \/ THdr \/ TClose \/ TEof \/ TSStart \/ TSend \/ TReset
+TNext == TOpen \/ THdr \/ TClose \/ TEof \/ TSStart \/ TSend \/ TProbe \/ TReset
 
 TraceSpec == TInit /\ [][TNext]_tvars
 
